@@ -124,10 +124,10 @@ Section Model.
   Definition raw_int_row (g : T) (row : list T) : list Z :=
     map (fun x => n_floorZ N (n_div N x g)) (cells row).
 
-  (* (x as f64) / granularity - int_matrix[i][j] as f64 over all K columns; the
-     wildcard cell of int_matrix is 0 at that point *)
+  (* (x as f64) / granularity - int_matrix[i][j] as f64 over the K-1 symbol columns
+     (`matrix[p][..K - 1]`) *)
   Definition row_errs (g : T) (row : list T) (ir : list Z) : list T :=
-    map (fun xi => n_sub N (n_div N (fst xi) g) (n_ofZ N (snd xi))) (combine row (ir ++ [0])).
+    map (fun xi => n_sub N (n_div N (fst xi) g) (n_ofZ N (snd xi))) (combine (cells row) ir).
 
   (* Iterator::max_by(|x, y| x.partial_cmp(y).unwrap_or(Ordering::Less)):
      reduce(|x, y| match compare(x, y) { Greater => x, _ => y }) *)
@@ -180,29 +180,36 @@ Section Model.
               (combine irow bg) [].
 
   (* body of the innermost loop; the state is (next row's map, overflow bucket) *)
-  Definition step_cell (mn mx maxs_next : Z) (key : Z) (val : T) (st : fmap * T) (cb : Z * T)
+  Definition step_cell (mn mx maxs_next : Z) (rest_next : T) (key : Z) (val : T) (st : fmap * T) (cb : Z * T)
     : fmap * T :=
     let sc := key + fst cb in
     if sc + maxs_next >=? mn then
       let occ := n_mul N val (snd cb) in
-      if sc >? mx then (fst st, n_add N (snd st) occ)
+      if sc >? mx then (fst st, n_add N (snd st) (n_mul N occ rest_next))
       else (fm_add sc occ (fst st), snd st)
     else st.
 
-  Definition step_row (mn mx maxs_next : Z) (irow : list Z) (bg : list T) (cur : fmap) (bucket : T)
+  Definition step_row (mn mx maxs_next : Z) (rest_next : T) (irow : list Z) (bg : list T) (cur : fmap) (bucket : T)
     : fmap * T :=
-    fold_left (fun st kv => fold_left (step_cell mn mx maxs_next (fst kv) (snd kv)) (combine irow bg) st)
+    fold_left (fun st kv => fold_left (step_cell mn mx maxs_next rest_next (fst kv) (snd kv)) (combine irow bg) st)
               cur ([], bucket).
 
-  (* rows pos = 1..M-1; [rm] pairs int_matrix[pos] with maxs[pos+1]; [acc] collects the
-     finished maps qvalues[0..pos-1] in reverse order *)
-  Fixpoint dist_loop (mn mx : Z) (bg : list T) (rm : list (list Z * Z)) (cur : fmap) (bucket : T)
+  (* rows pos = 1..M-1; [rm] pairs int_matrix[pos] with maxs[pos+1] and rest[pos+1]; [acc]
+     collects the finished maps qvalues[0..pos-1] in reverse order *)
+  Fixpoint dist_loop (mn mx : Z) (bg : list T) (rm : list (list Z * Z * T)) (cur : fmap) (bucket : T)
            (acc : list fmap) : list fmap * fmap * T :=
     match rm with
     | [] => (acc, cur, bucket)
-    | (irow, mnext) :: r =>
-        let '(nxt, b) := step_row mn mx mnext irow bg cur bucket in
+    | (irow, mnext, rnext) :: r =>
+        let '(nxt, b) := step_row mn mx mnext rnext irow bg cur bucket in
         dist_loop mn mx bg r nxt b (cur :: acc)
+    end.
+
+  (* `rest`: rest[M] = 1.0, rest[i] = rest[i+1] * mass; [rest_sums mass n] = [rest[M-n]; ..; rest[M]] *)
+  Fixpoint rest_sums (mass : T) (n : nat) : list T :=
+    match n with
+    | O => [n_one N]
+    | S k => let s := rest_sums mass k in (n_mul N (hd (n_one N) s) mass) :: s
     end.
 
   (* distribution(min, max): the maps qvalues[0..M-1] (qvalues[M] stays empty).
@@ -215,9 +222,12 @@ Section Model.
         let maxs := suffix_sums (g_maxr G) in
         if negb (forallb in_i64 maxs) then Panic 23 else
         if mx =? i64_max then Panic 24 else
+        (* mass = 1.0 - bg[K - 1] as f64: total probability of the symbols in one row *)
+        let mass := n_sub N (n_one N) (last bg (n_zero N)) in
+        let rest := rest_sums mass (length (g_int G)) in
         let q0 := init_row mn (nth 1 maxs 0) irow0 bg in
         let '(acc, cur, bucket) :=
-          dist_loop mn mx bg (combine irows (skipn 2 maxs)) q0 (n_zero N) [] in
+          dist_loop mn mx bg (combine (combine irows (skipn 2 maxs)) (skipn 2 rest)) q0 (n_zero N) [] in
         Ok (rev acc ++ [fm_set (mx + 1) bucket cur])
     end.
 
@@ -400,15 +410,20 @@ Section Model.
     let mx := smax + n_ceilZ N (n_add N (g_emax G) (n_half N)) in
     if in_i64 mx then Ok (mn, mx) else Panic 34.
 
-  (* ScoresIterator::next *)
+  (* ScoresIterator::next (the window of the next step reaches from below the images of
+     alpha_e to above the images of alpha: an integer score I becomes a score within
+     9 M of 10 I at the next granularity) *)
   Definition sc_next (rows : list (list T)) (perm : list nat) (bg : list T) (p g : T) (win : Z * Z)
     : res iter_out :=
     G <- recompute rows perm g ;;
     o <- lookup_score G bg p (fst win) (snd win) ;;
     let a := n_ofZ N (ls_alpha o) in
+    let ae := n_ofZ N (ls_alpha_e o) in
     let w := n_ceil N (n_add N (g_emax G) (n_half N)) in
-    let mn' := n_floorZ N (n_mul N (n_sub N a w) (n_ten N)) in
-    let mx' := n_floorZ N (n_mul N (n_add N a w) (n_ten N)) in
+    (* slack = (decay - 1.0) * M as f64 *)
+    let slack := n_mul N (n_sub N (n_ten N) (n_one N)) (n_ofZ N (Z.of_nat (length rows))) in
+    let mn' := n_floorZ N (n_sub N (n_mul N (n_sub N ae w) (n_ten N)) slack) in
+    let mx' := n_floorZ N (n_add N (n_mul N (n_add N a w) (n_ten N)) slack) in
     osum <- sum_i64 21 0 (g_off G) ;;
     if negb (in_i64 (ls_alpha o - osum)) then Panic 33 else
     Ok {| io_gran := g; io_start := ls_start o; io_end := ls_end o;
